@@ -7,6 +7,7 @@ CONSTANTS
   AllowMixed = TRUE
   NCorrupt = 0
   Subst0 = {48, 49, 50, 51, 52, 53, 54, 55, 56, 57, 65, 66, 67, 68, 69, 70, 71, 90, 32, 58, 83}
+  WithRelocs = FALSE
   Lens = {0, 1, 3}
 INIT Init
 NEXT Next
